@@ -4,6 +4,7 @@ use crate::common::*;
 use crate::httpgen::*;
 use humphrey::app::{verif_client_handler, verif_error_handler, ErrorHandler};
 use humphrey::http::cors::Cors;
+use humphrey::http::headers::HeaderType;
 use humphrey::http::method::Method;
 use humphrey::http::{Request, Response, StatusCode};
 use humphrey::monitor::MonitorConfig;
@@ -136,6 +137,15 @@ fn add_route(sub: SubApp<()>, pat: &str, kind: &str, cors: &str) -> SubApp<()> {
             Response::new(StatusCode::OK, req.content.clone().unwrap_or_default())
         } else if k == "m" {
             Response::empty(StatusCode::OK)
+        } else if let Some(which) = k.strip_prefix('h') {
+            // handlers that set headers of their own, among them CORS headers the route is configured with as well: a header
+            // the handler has set is kept, every OTHER configured CORS header must still be added
+            let mut r = Response::new(StatusCode::OK, format!("h{}", which));
+            if which.contains('o') { r = r.with_header(HeaderType::AccessControlAllowOrigin, "https://h.example"); }
+            if which.contains('m') { r = r.with_header(HeaderType::AccessControlAllowMethods, "PATCH"); }
+            if which.contains('h') { r = r.with_header(HeaderType::AccessControlAllowHeaders, "X-H"); }
+            if which.contains('x') { r = r.with_header("X-Custom", "1").with_header(HeaderType::Server, "mine"); }
+            r
         } else {
             std::panic::resume_unwind(Box::new("handler panic"))
         }
@@ -529,6 +539,32 @@ pub fn gen(out: &mut Out, thorough: bool, seed: u64) {
             for cut in 1..all.len() {
                 let ev = vec![format!("d{}", hex(&all[..cut])), format!("d{}", hex(&all[cut..]))];
                 emit_conn(out, &cfg, timeout, &ev, peer, &all, "split", nt);
+            }
+        }
+    }
+    // handlers that set response headers themselves — one, two or all three of the CORS headers their route is configured
+    // with, a custom header and Server: every combination of {handler sets o/m/h/x} x {route CORS preset 1, 2, 3, none},
+    // plain, OPTIONS and keep-alive pairs, on both runtimes
+    {
+        let kinds = ["ho", "hm", "hh", "hom", "hoh", "hmh", "homh", "hx", "hox"];
+        let mut routes: Vec<(String, String, String)> = Vec::new();
+        for (ki, k) in kinds.iter().enumerate() {
+            for preset in ["0", "1", "2", "3"] {
+                routes.push((format!("/k{}c{}", ki, preset), k.to_string(), preset.to_string()));
+            }
+        }
+        routes.push(("/plain".into(), "i1".into(), "2".into()));
+        let hc = sub_spec("*", &routes, &[]);
+        for (ki, _) in kinds.iter().enumerate() {
+            for preset in ["0", "1", "2", "3"] {
+                for method in ["GET", "OPTIONS", "POST"] {
+                    let target = format!("/k{}c{}", ki, preset);
+                    let body = if method == "POST" { "Content-Length: 2\r\n\r\nhi" } else { "\r\n" };
+                    let one = format!("{} {} HTTP/1.1\r\nHost: a\r\nOrigin: https://o.example\r\nConnection: keep-alive\r\n{}", method, target, body).into_bytes();
+                    let two = [one.clone(), b"GET /plain HTTP/1.1\r\nConnection: close\r\n\r\n".to_vec()].concat();
+                    NREQ.with(|n| n.set(2));
+                    emit_conn(out, &hc, false, &[format!("d{}", hex(&two))], ("127.0.0.1", 40000), &two, "handler-headers", true);
+                }
             }
         }
     }
